@@ -176,6 +176,17 @@ def disc_addrs(datok):
 
 def oracle_local(case, impl):
     f = case.split(" ")
+    if f[0] == "resolveseq":
+        if impl.startswith(("PANIC", "TIMEOUT", "ERR")):
+            return "real code did not complete: " + impl[:100]
+        ps, outs = f[6].split(","), impl.split("|")
+        if len(ps) != len(outs):
+            return "%d queries, %d results" % (len(ps), len(outs))
+        for i, (p, o) in enumerate(zip(ps, outs)):
+            r = oracle_local(" ".join(["resolve"] + f[1:6] + [p]), o)
+            if r is not None:
+                return "query %d of %d on one proxy / hosts table: %s" % (i + 1, len(ps), r)
+        return None
     if impl.startswith(("PANIC", "TIMEOUT", "ERR")):
         return "real code did not complete: " + impl[:100]
     if f[0] == "ptrip":
@@ -297,7 +308,7 @@ SPEC = dict(
                    "(ASCII names). hosts_answer_shape is stated for names that pack as DNS names (an unpackable PTR target makes hostsResolve "
                    "fail and the query falls through: kept as hypothesis).",
         areas=[dict(name="local", n_quick=40000, n_thorough=1200000, shards_thorough=8, oracle=oracle_local,
-                    nontrivial=lambda c, i: c.startswith("resolve") and " up=0 " in i or (c.startswith("ptrip") and "ip=none" not in i)),
+                    nontrivial=lambda c, i: c.startswith("resolve") and " up=0 " in (i + " ") or (c.startswith("ptrip") and "ip=none" not in i)),
                dict(name="hrefresh", n_quick=150, n_thorough=3000, shards_thorough=4, oracle=oracle_hrefresh)],
         trusted=COMMON_TRUST + ["strconv.ParseUint, net.IP.String, net.ParseIP, strings.ToLower as described in NV/Model/Local.lean (exercised by the local area)",
                                 "hosts-file syntax (comments, field splitting, address parsing) is C18's subject; C12 takes the accepted lines"],
